@@ -211,7 +211,7 @@ func vpH_c03_command() {
 
 func vpH_c03_plugins() {
 	step := vpMapOf("command", "c")
-	src1, src2 := "a"+vpStrUpTo(1, "a-c"), "b"+vpStrUpTo(1, "a-c")+"#v1"
+	src1, src2 := "a"+vpStrUpTo(1, "a-cA"), "b"+vpStrUpTo(1, "a-cA")+"#v1" // letter case is part of a source
 	cfgKind := vpInt(0, 8)
 	var cfg any
 	cv := vpStrUpTo(1, "x-z")
